@@ -94,15 +94,17 @@ class Sim(object):
         return M.Entry(rid, pattern, methods, beh, mode)
 
     def idx(self, i, index):
-        n = len(self.apps[i]['table'])
-        return None if index is None else index % (n + 1)
+        # passed through as given: add(entry, index) has list.insert semantics (negative and past-the-end indices are legal)
+        return index
 
     def insert(self, i, index, entries):
         t = self.apps[i]['table']
         if index is None:
             t.extend(entries)
         else:
-            t[index:index] = entries
+            # "inserts the new routes contiguously at the requested index": where list.insert would put the first one
+            pos = max(0, len(t) + index) if index < 0 else min(index, len(t))
+            t[pos:pos] = entries
 
     # ---- operations
     def step(self, op):
@@ -287,7 +289,7 @@ class Sim(object):
 def machine():
     from hypothesis import strategies as st
     from hypothesis.stateful import RuleBasedStateMachine, rule, initialize
-    index = st.one_of(st.none(), st.integers(0, 6))
+    index = st.one_of(st.none(), st.integers(0, 6), st.integers(-3, 8))
 
     class AppMachine(RuleBasedStateMachine):
         ctx = None
